@@ -266,6 +266,82 @@ pub fn api_bodies(
             run_case(r, kind, m);
         }
     }
+    // Numeric path segments of the history routes
+    // (`/cas/{ca}/history/commands/{rows}/{offset}/{after}/{before}` and
+    // `/cas/{ca}/history/details/{version}`): the handlers parse them as
+    // integers and pass them unchecked to these manager calls. Values
+    // whose allocation would merely fail (and abort the harness process
+    // too) are left out; the extremes below overflow instead.
+    {
+        let inst = r.world.inst(0);
+        inst.enter();
+        let mgr = inst.mgr().clone();
+        let extremes: [usize; 5] = [
+            0, 1, usize::MAX, usize::MAX / 2, (isize::MAX as usize) / 8,
+        ];
+        for rows in extremes {
+            for offset in [0usize, 1, usize::MAX] {
+                for (after, before) in [
+                    (None, None), (Some(i64::MAX), Some(i64::MIN)),
+                    (Some(i64::MIN), Some(i64::MAX)),
+                ] {
+                    let mgr = mgr.clone();
+                    let res = guarded(move || {
+                        block_on(mgr.ca_history(
+                            handle(CA),
+                            api::history::CommandHistoryCriteria {
+                                before, after, offset,
+                                rows_limit: Some(rows),
+                                .. Default::default()
+                            }
+                        )).map(|h| h.commands.len())
+                            .map_err(|e| format!("{e:?}"))
+                    });
+                    cases.insert("c16.api.history.path_segments".into());
+                    match res {
+                        Guarded::Ok(_) => { }
+                        Guarded::Panic(msg) => fail(
+                            "panic", format!(
+                                "GET history/commands/{rows}/{offset}/\
+                                 {after:?}/{before:?}: {msg}"
+                            )
+                        ),
+                        other => fail(
+                            "panic", format!(
+                                "GET history/commands/{rows}/{offset}: \
+                                 {other:?}"
+                            )
+                        ),
+                    }
+                }
+            }
+        }
+        // `/pubd/stale/{seconds}`.
+        for seconds in [0i64, -1, i64::MIN, i64::MAX] {
+            let mgr = mgr.clone();
+            let res = guarded(move || {
+                block_on(mgr.repo_stats()).map(|stats| {
+                    stats.stale_publishers(seconds).count()
+                }).map_err(|e| format!("{e:?}"))
+            });
+            if let Guarded::Panic(msg) = res {
+                fail("panic", format!("GET pubd/stale/{seconds}: {msg}"));
+            }
+        }
+        for version in [0u64, 1, u64::MAX, u64::MAX / 2, 1 << 63] {
+            let mgr = mgr.clone();
+            let res = guarded(move || {
+                block_on(mgr.ca_command_details(handle(CA), version))
+                    .map(|d| d.is_some()).map_err(|e| format!("{e:?}"))
+            });
+            if let Guarded::Panic(msg) = res {
+                fail(
+                    "panic",
+                    format!("GET history/details/{version}: {msg}")
+                );
+            }
+        }
+    }
     // Background work must survive whatever was accepted.
     r.exec_pump();
     if let Some(dead) = &r.dead {
